@@ -565,3 +565,171 @@ pub fn par_map<T: Send, F: Fn(usize) -> T + Sync>(n: usize, threads: usize, f: F
   v.sort_by_key(|x| x.0);
   v.into_iter().map(|x| x.1).collect()
 }
+
+// ---------------------------------------------------------------------------
+// Engine E3: subprocess shards with watchdog (hang / crash / OOM survive the explorer)
+
+#[derive(Debug, Clone)]
+pub enum CaseOutcome {
+  /// the child reported a result line for this case
+  Done(Value),
+  /// no progress within the per-case timeout: the child was killed
+  Hang,
+  /// the child died while working on this case (signal / abort / non-zero exit)
+  Crash(String),
+  /// not run: the shard had already used up its budget of hangs/crashes
+  Skipped,
+}
+
+/// Child side: call before each case.
+pub fn shard_start(idx: usize) {
+  use std::io::Write;
+  let mut o = std::io::stdout().lock();
+  let _ = writeln!(o, "S {idx}");
+  let _ = o.flush();
+}
+/// Child side: call after each case.
+pub fn shard_result(idx: usize, v: &Value) {
+  use std::io::Write;
+  let mut o = std::io::stdout().lock();
+  let _ = writeln!(o, "R {idx} {}", serde_json::to_string(v).unwrap());
+  let _ = o.flush();
+}
+/// Child side: call once after the last case of the shard.
+pub fn shard_end() {
+  use std::io::Write;
+  let mut o = std::io::stdout().lock();
+  let _ = writeln!(o, "E");
+  let _ = o.flush();
+}
+/// Child side: apply the address-space limit requested by the parent (bytes).
+pub fn shard_apply_limits() {
+  if let Some(b) = std::env::var("VERIF_RLIMIT_AS").ok().and_then(|s| s.parse::<u64>().ok()) {
+    let lim = libc::rlimit { rlim_cur: b, rlim_max: b };
+    unsafe {
+      libc::setrlimit(libc::RLIMIT_AS, &lim);
+    }
+  }
+}
+
+/// Parent side: run cases `0..ncases` in `nshards` child processes (`mc <args> --shard a..b`).
+/// Returns one outcome per case. A hang or crash costs only that case: the shard is
+/// restarted at the next index.
+pub fn run_sharded(args: &[String], ncases: usize, nshards: usize, per_case_timeout_s: f64, rlimit_as: Option<u64>) -> Vec<CaseOutcome> {
+  run_sharded_budget(args, ncases, nshards, per_case_timeout_s, rlimit_as, 6)
+}
+
+/// As `run_sharded`; a shard stops after `max_faults` hangs/crashes (the rest of its range is `Skipped`).
+pub fn run_sharded_budget(args: &[String], ncases: usize, nshards: usize, per_case_timeout_s: f64, rlimit_as: Option<u64>, max_faults: usize) -> Vec<CaseOutcome> {
+  use std::{
+    io::{BufRead, BufReader},
+    process::{Command, Stdio},
+    sync::mpsc,
+    time::Duration,
+  };
+  let exe = std::env::current_exe().expect("current_exe");
+  let outcomes: Mutex<Vec<Option<CaseOutcome>>> = Mutex::new(vec![None; ncases]);
+  let nshards = nshards.max(1).min(ncases.max(1));
+  let per = ncases.div_ceil(nshards);
+  std::thread::scope(|s| {
+    for sh in 0..nshards {
+      let (lo, hi) = (sh * per, ((sh + 1) * per).min(ncases));
+      if lo >= hi {
+        continue;
+      }
+      let exe = exe.clone();
+      let outcomes = &outcomes;
+      s.spawn(move || {
+        let mut start = lo;
+        let mut faults = 0usize;
+        while start < hi {
+          if faults >= max_faults {
+            let mut o = outcomes.lock().unwrap();
+            for i in start..hi {
+              if o[i].is_none() {
+                o[i] = Some(CaseOutcome::Skipped);
+              }
+            }
+            break;
+          }
+          let mut cmd = Command::new(&exe);
+          cmd.args(args).arg("--shard").arg(format!("{start}..{hi}")).stdout(Stdio::piped()).stderr(Stdio::null());
+          if let Some(b) = rlimit_as {
+            cmd.env("VERIF_RLIMIT_AS", b.to_string());
+          }
+          let mut child = cmd.spawn().expect("spawn shard");
+          let out = child.stdout.take().unwrap();
+          let (tx, rx) = mpsc::channel::<String>();
+          let reader = std::thread::spawn(move || {
+            for l in BufReader::new(out).lines().map_while(Result::ok) {
+              if tx.send(l).is_err() {
+                break;
+              }
+            }
+          });
+          let mut current: Option<usize> = None;
+          let mut next_start = hi;
+          loop {
+            match rx.recv_timeout(Duration::from_secs_f64(per_case_timeout_s)) {
+              Ok(l) => {
+                if let Some(r) = l.strip_prefix("S ") {
+                  // starting a new case means the previous one returned (without a result line: nothing to report)
+                  if let Some(c) = current {
+                    let mut o = outcomes.lock().unwrap();
+                    if o[c].is_none() {
+                      o[c] = Some(CaseOutcome::Done(Value::Null));
+                    }
+                  }
+                  current = r.trim().parse().ok();
+                } else if l.trim() == "E" {
+                  if let Some(c) = current.take() {
+                    let mut o = outcomes.lock().unwrap();
+                    if o[c].is_none() {
+                      o[c] = Some(CaseOutcome::Done(Value::Null));
+                    }
+                  }
+                } else if let Some(r) = l.strip_prefix("R ") {
+                  let mut it = r.splitn(2, ' ');
+                  let idx: usize = it.next().unwrap().parse().unwrap();
+                  let v: Value = serde_json::from_str(it.next().unwrap_or("null")).unwrap_or(Value::Null);
+                  outcomes.lock().unwrap()[idx] = Some(CaseOutcome::Done(v));
+                  if current == Some(idx) {
+                    current = None;
+                  }
+                }
+              }
+              Err(mpsc::RecvTimeoutError::Timeout) => {
+                // no line within the timeout: the current case hangs
+                let _ = child.kill();
+                let _ = child.wait();
+                faults += 1;
+                if let Some(c) = current {
+                  outcomes.lock().unwrap()[c] = Some(CaseOutcome::Hang);
+                  next_start = c + 1;
+                } else {
+                  // hung outside a case (startup): machinery problem; skip one to make progress
+                  next_start = hi;
+                }
+                break;
+              }
+              Err(mpsc::RecvTimeoutError::Disconnected) => {
+                let st = child.wait().map(|s| format!("{s}")).unwrap_or_default();
+                if let Some(c) = current {
+                  faults += 1;
+                  outcomes.lock().unwrap()[c] = Some(CaseOutcome::Crash(st));
+                  next_start = c + 1;
+                } else {
+                  next_start = hi;
+                }
+                break;
+              }
+            }
+          }
+          let _ = reader.join();
+          start = next_start;
+        }
+      });
+    }
+  });
+  outcomes.into_inner().unwrap().into_iter().map(|o| o.unwrap_or(CaseOutcome::Crash("MACHINERY: no outcome recorded".into()))).collect()
+}
